@@ -900,6 +900,11 @@ pub fn set_sched_policy(defer_permille: u32, slow_permille: u32) {
     });
 }
 
+/// Forces a steadily slow helper-thread profile (one helper step per `gap` hand-over points).
+pub fn set_helper_gap(gap: u32) {
+    with(|c| c.helper_gap = gap);
+}
+
 /// Sets the port number space: 0 = full u32, otherwise numbers are drawn from `0..space`.
 pub fn set_port_space(space: u32) {
     with(|c| c.port_space = space);
